@@ -2,6 +2,7 @@ package main
 
 import (
 	"fmt"
+	"io"
 	"math/big"
 
 	"github.com/tuneinsight/lattigo/v6/core/rlwe"
@@ -24,6 +25,7 @@ type world struct {
 	shares [][]multiparty.ShamirSecretShare // shares[sender][receiver]
 	refPol [][]mp.Flat                      // refPol[sender][k]: residues of the k-th coefficient of the sender's polynomial
 	ideal  mp.Flat                          // Σ_j sk_j, residues over QP
+	refT   map[int]mp.Flat                  // memo of refTsks (reference values, read only)
 }
 
 func points(params rlwe.Parameters, family string, n int) []uint64 {
@@ -91,8 +93,29 @@ func cover(c *engine.Chooser, k cfg, w *world) {
 
 // newWorld runs the setup with the implementation and records the reference view of the polynomials.
 // ok=false: a violation was recorded.
+//
+// The setup of a scenario is the same for all its leaves (it is seeded by the scenario name and takes no choice),
+// and the leaves only read it (aggregates and additive shares are written into fresh objects), so the world built by
+// the first leaf of a scenario is kept for the following ones of the same worker process. A setup that recorded a
+// violation is never kept.
+var worldCache struct {
+	name string
+	w    *world
+}
+
 func newWorld(c *engine.Chooser, name string, k cfg, pts []uint64) (w *world, ok bool) {
-	params := k.chain.RLWE(true)
+	if k.n > 1 {
+		c.Cover("thresholdizer-history", "after-another-sharing")
+	}
+	if worldCache.name == name && worldCache.w != nil {
+		return worldCache.w, true
+	}
+	defer func() {
+		if ok {
+			worldCache.name, worldCache.w = name, w
+		}
+	}()
+	params := k.chain.RLWE(!k.coef)
 	uni.Seed(c, name, "setup")
 	w = &world{params: params, n: k.n, t: k.t, pts: pts}
 	w.sks = secrets(params, k.secret, k.n)
@@ -102,6 +125,17 @@ func newWorld(c *engine.Chooser, name string, k cfg, pts []uint64) (w *world, ok
 	w.refPol = make([][]mp.Flat, k.n)
 	for j := 0; j < k.n; j++ {
 		w.thr[j] = multiparty.NewThresholdizer(params)
+		if j%2 == 1 {
+			// thresholdizer history: every other party's Thresholdizer already served another sharing (other
+			// threshold, other secret, shares for all points) before the judged one
+			if wp, err := w.thr[j].GenShamirPolynomial(k.t+1, w.sks[(j+1)%k.n]); err == nil {
+				ws := w.thr[j].AllocateThresholdSecretShare()
+				for r := 0; r < k.n; r++ {
+					w.thr[j].GenShamirSecretShare(multiparty.ShamirPublicPoint(pts[r]), wp, &ws)
+				}
+				_ = w.thr[j].AggregateShares(ws, ws, &ws)
+			}
+		}
 		pol, err := w.thr[j].GenShamirPolynomial(k.t, w.sks[j])
 		if err != nil {
 			c.Fail("C15/GenShamirPolynomial/error", "threshold %d: %v", k.t, err)
@@ -148,12 +182,27 @@ func shamirOps(w *world, name string, receiver int) mp.Ops[multiparty.ShamirSecr
 			err = r.UnmarshalBinary(data)
 			return
 		},
+		Stream: func(a multiparty.ShamirSecretShare, wrap func(io.Reader) io.Reader) (multiparty.ShamirSecretShare, error) {
+			return mp.StreamHop[multiparty.ShamirSecretShare](a, wrap)
+		},
 		Flat: func(a multiparty.ShamirSecretShare) mp.Flat { return mp.Flat{Tag: "qp", Rows: mp.RowsQP(nil, w.params, a.Poly)} },
 	}
 }
 
 // refTsks is the reference aggregated share of a receiver: Σ_j f_j(x_r).
 func (w *world) refTsks(r int) mp.Flat {
+	if w.refT == nil {
+		w.refT = map[int]mp.Flat{}
+	}
+	if f, ok := w.refT[r]; ok {
+		return f
+	}
+	f := w.refTsksCompute(r)
+	w.refT[r] = f
+	return f
+}
+
+func (w *world) refTsksCompute(r int) mp.Flat {
 	f := mp.EvalShamir(w.refPol[0], w.pts[r])
 	for j := 1; j < w.n; j++ {
 		f = mp.AddFlat(f, mp.EvalShamir(w.refPol[j], w.pts[r]))
@@ -163,7 +212,7 @@ func (w *world) refTsks(r int) mp.Flat {
 
 // setupLeaf: one path through the merge lattice of the shares one receiver gets.
 func setupLeaf(c *engine.Chooser, name string, k cfg) {
-	params := k.chain.RLWE(true)
+	params := k.chain.RLWE(!k.coef)
 	w, ok := newWorld(c, name, k, points(params, k.family, k.n))
 	if !ok {
 		return
@@ -172,7 +221,8 @@ func setupLeaf(c *engine.Chooser, name string, k cfg) {
 	r := c.ChooseFree(k.n, "receiver")
 	in := make([]multiparty.ShamirSecretShare, k.n)
 	for j := range in {
-		in[j] = w.shares[j][r]
+		// deep copies: the lattice search overwrites operands in its aliasing variants, the world is shared by the leaves
+		in[j] = multiparty.ShamirSecretShare{Poly: *w.shares[j][r].Poly.CopyNew()}
 	}
 	ops := shamirOps(w, name, r)
 	agg, ok := mp.Merge(c, ops, in, mp.Search{Mode: mp.Full, Variants: true})
@@ -215,7 +265,7 @@ func subset(c *engine.Chooser, n, size int) []int {
 }
 
 func combineLeaf(c *engine.Chooser, name string, k cfg) {
-	params := k.chain.RLWE(true)
+	params := k.chain.RLWE(!k.coef)
 	w, ok := newWorld(c, name, k, points(params, k.family, k.n))
 	if !ok {
 		return
@@ -437,8 +487,10 @@ func downstream(c *engine.Chooser, name string, k cfg, w *world, act []int, tsk 
 			pt.Value.Coeffs[i][j] = ref.ModU(want[j], q)
 		}
 	}
-	params.RingQ().AtLevel(lvl).NTT(pt.Value, pt.Value)
-	pt.IsNTT = true
+	if params.NTTFlag() { // the plaintext is built in the coefficient domain; NewPlaintext flags it as the parameters say
+		params.RingQ().AtLevel(lvl).NTT(pt.Value, pt.Value)
+	}
+	c.Cover("downstream-domain", fmt.Sprintf("ntt=%v", params.NTTFlag()))
 	ideal := mp.SumKeys(params, w.sks)
 	ct := rlwe.NewCiphertext(params, 1, lvl)
 	if err := rlwe.NewEncryptor(params, ideal).Encrypt(pt, ct); err != nil {
@@ -466,7 +518,7 @@ func downstream(c *engine.Chooser, name string, k cfg, w *world, act []int, tsk 
 		}
 		out := rlwe.NewCiphertext(params, 1, lvl)
 		ks.KeySwitch(ct, agg, out)
-		ph := uni.Phase(params, out.El(), zero)
+		ph := mp.Phase(params, out.El(), zero)
 		dec := make([]int64, len(ph))
 		for j := range ph {
 			v := ref.RoundDivHalfUp(new(big.Int).Mul(ph[j], big.NewInt(T)), Q)
@@ -495,11 +547,49 @@ func downstream(c *engine.Chooser, name string, k cfg, w *world, act []int, tsk 
 		return
 	}
 	c.Cover("downstream", "decrypts")
+
+	// keys: the t active parties generate a collective public key with their additive shares as secret keys; it
+	// must be a public key of the ideal secret (the sum of all N original keys): what it encrypts is read under
+	// the ideal secret within the bound of C14 (pk error = sum of t errors, secret = sum of N ternary keys):
+	//   |u*e| <= R*t*B, |e0| <= B, |e1*s| <= R*B*N, rounding of the division by P: (#P+1)*(1+R*N),  R = ring factor.
+	ckg := multiparty.NewPublicKeyGenProtocol(params)
+	crp := ckg.SampleCRP(mp.CRS(0))
+	aggPK := ckg.AllocateShare()
+	for i, sk := range tsk {
+		p := ckg
+		if i > 0 {
+			p = ckg.ShallowCopy()
+		}
+		sh := p.AllocateShare()
+		p.GenShare(sk, crp, &sh)
+		if i == 0 {
+			aggPK = sh
+		} else {
+			p.AggregateShares(aggPK, sh, &aggPK)
+		}
+	}
+	pk := rlwe.NewPublicKey(params)
+	ckg.GenPublicKey(aggPK, crp, pk)
+	ct2 := rlwe.NewCiphertext(params, 1, lvl)
+	if err := rlwe.NewEncryptor(params, pk).Encrypt(pt, ct2); err != nil {
+		c.Fail("C15/downstream/collective-public-key-unusable", "%v", err)
+		return
+	}
+	R, B, nt, nn := mp.RingFactor(params), mp.XeSup(params.Xe()).Int64(), int64(len(tsk)), int64(k.n)
+	pkBound := R*nt*B + B + R*B*nn
+	if params.PCount() > 0 {
+		pkBound += int64(params.PCount()+1) * (1 + R*nn)
+	}
+	if nz := mp.NoiseInf(params, ct2.El(), ideal, want); nz.Cmp(big.NewInt(pkBound)) > 0 {
+		c.Fail("C15/downstream/t-party-public-key-not-a-key-of-the-ideal-secret", "actives %v: |phase under sum(s_j) of Enc_pk(m) - m| = %v > %d", act, nz, pkBound)
+		return
+	}
+	c.Cover("downstream", "collective-public-key")
 }
 
 // collideLeaf: points that collide (or vanish) modulo one prime. Only "no panic" is required.
 func collideLeaf(c *engine.Chooser, name string, k cfg) {
-	params := k.chain.RLWE(true)
+	params := k.chain.RLWE(!k.coef)
 	q0, p0 := params.Q()[0], params.P()[0]
 	variants := [][]uint64{
 		{5, 5 + q0, 7},       // two points equal modulo q0
@@ -549,7 +639,7 @@ func collideLeaf(c *engine.Chooser, name string, k cfg) {
 
 // newWorldNoOracle is the setup without reference comparisons (colliding points have no reference).
 func newWorldNoOracle(c *engine.Chooser, name string, k cfg, pts []uint64) (*world, bool) {
-	params := k.chain.RLWE(true)
+	params := k.chain.RLWE(!k.coef)
 	uni.Seed(c, name, "setup")
 	w := &world{params: params, n: k.n, t: k.t, pts: pts}
 	w.sks = secrets(params, k.secret, k.n)
